@@ -70,6 +70,26 @@ def build():
             decreases self.handlers@.len() - k,""")],
                    contract="""
         ensures final(log).notified@ =~= old(log).notified@ + exit_ids(self.handlers@, self.handlers@.len() as int), // [C16:every-worker-exit-event-raised] every worker that has an exit event is told exactly once, in worker order""")
+    # Drop for VhostUserHandler: every worker is told to exit BEFORE any worker is joined (a join before the exit events blocks for ever:
+    # the precondition of join_after_exit), and every worker thread is joined
+    u.extracted_fn(hnd, "drop", within=hnd.impl_span(r'^impl<T: VhostUserBackend> Drop for VhostUserHandler<T>'),
+                   sig_rw=[("R8", r'&mut self\b', '&mut self, log: &mut ExitLog')],
+                   body_rw=[("R8", r'\bself\.send_exit_event\(\)', 'self.send_exit_event(log)'),
+                            ("R21", r'for thread in self\.worker_threads\.drain\(\.\.\) \{', 'while self.worker_threads.len() > 0 { let thread = self.worker_threads.remove(0);'),
+                            ("R8", r'\bthread\.join\(\)', 'thread.join_after_exit(&self.handlers, log)'),
+                            ("R6", r'error!\("Error in vring worker: \{:\?\}", e\);', '')],
+                   loops=[dict(kind="while", nth=0, text="""            invariant self.handlers == old(self).handlers,
+                forall|i: int| 0 <= i < self.worker_threads@.len() ==> 0 <= (#[trigger] self.worker_threads@[i]).worker@ < self.handlers@.len(),
+                forall|t: int| 0 <= t < self.handlers@.len() && (#[trigger] self.handlers@[t]).exit_event_fd is Some ==> log.notified@.contains(self.handlers@[t].exit_event_fd->Some_0.ev@),
+            decreases self.worker_threads@.len(),""")],
+                   hints=[(r'while self\.worker_threads\.len\(\) > 0', """assert forall|t: int| 0 <= t < self.handlers@.len() && (#[trigger] self.handlers@[t]).exit_event_fd is Some implies log.notified@.contains(self.handlers@[t].exit_event_fd->Some_0.ev@) by {
+                lemma_exit_ids_contains(self.handlers@, self.handlers@.len() as int, t);
+                lemma_concat_contains(old(log).notified@, exit_ids(self.handlers@, self.handlers@.len() as int), self.handlers@[t].exit_event_fd->Some_0.ev@);
+            }""")],
+                   contract="""
+        requires forall|i: int| 0 <= i < old(self).worker_threads@.len() ==> 0 <= (#[trigger] old(self).worker_threads@[i]).worker@ < old(self).handlers@.len(), // every worker thread runs one of the handlers (VhostUserHandler::new, unit rank)
+        ensures final(self).worker_threads@.len() == 0, // [C16:teardown-joins-every-worker] no worker thread is left running
+            final(log).notified@ =~= old(log).notified@ + exit_ids(old(self).handlers@, old(self).handlers@.len() as int), // [C16:teardown-exit-before-join] every worker's exit event is written once - and (precondition of the join) before that worker is joined""")
     u.raw("}")
     u.raw("fn main() {}\n} // verus!")
     return u
